@@ -1,6 +1,27 @@
 import RedoModel.Wire
 import RedoModel.Paths
+import RedoModel.DoFiles
+import RedoModel.LogRec
 open RedoModel RedoModel.Wire
+
+def decList (s : String) : Option (List (List Char)) :=
+  if s = "" then some [] else (s.splitOn ",").mapM dec
+
+def decForest (s : String) : Option LogRec.Forest :=
+  if s = "" then some [] else
+  (s.splitOn ";").mapM fun e =>
+    match e.splitOn ":" with
+    | [n, "!"] => (dec n).map fun n => (n, none)
+    | [n, ls] => do
+      let n ← dec n
+      let ls ← decList ls
+      pure (n, some ls)
+    | _ => none
+
+def showOut (o : LogRec.Tagged) : String :=
+  match o.out with
+  | .record k t => "m:" ++ enc k ++ ":" ++ enc t
+  | .raw l => "r:" ++ enc l
 
 /-- One request line → one response line.  Unknown or malformed requests answer `bad-op`
 (never a default value). -/
@@ -17,6 +38,50 @@ def respond (line : String) : String :=
   | ["relpath-lex", t, b] =>
     match dec t, dec b with
     | some t, some b => enc (Paths.relpathLex t b)
+    | _, _ => "bad-op"
+  | ["dofiles", p] =>
+    match dec p with
+    | some p =>
+      if !Paths.rooted p then "bad-op" else
+      match DoFiles.possibleDoFiles p with
+      | none => "none"
+      | some cs => ",".intercalate (cs.map fun c =>
+          "|".intercalate [enc c.doDir, enc c.doFile, enc c.baseDir, enc c.baseName, enc c.ext,
+            enc (DoFiles.arg1 c), enc (DoFiles.arg2 c), enc (Paths.relpathLex (DoFiles.tmpName c) c.doDir)])
+    | none => "bad-op"
+  | ["meta-parse", l] =>
+    match dec l with
+    | some l =>
+      match LogRec.parse l with
+      | .ok r => "ok " ++ enc r.kind ++ " " ++ enc r.pid ++ " " ++ (if LogRec.canonTs r.ts then enc r.ts else "*") ++ " " ++ enc r.text
+      | .error _ => "err"
+    | none => "bad-op"
+  | ["meta-format", k, p, t, x] =>
+    match dec k, dec p, dec t, dec x with
+    | some k, some p, some t, some x =>
+      if LogRec.canonI32 p = some p && LogRec.canonTs t then enc (LogRec.format ⟨k, p, t, x⟩) else "bad-op"
+    | _, _, _, _ => "bad-op"
+  | ["done-text", x] =>
+    match dec x with
+    | some x => match LogRec.parseDoneText x with
+      | some (rv, n) => "some " ++ enc rv ++ " " ++ enc n
+      | none => "none"
+    | none => "bad-op"
+  | ["valid-line", x] =>
+    match dec x with
+    | some x => toString (LogRec.isValidLogLine x)
+    | none => "bad-op"
+  | ["clean-line", x] =>
+    match dec x with
+    | some x => enc (LogRec.cleanLine x)
+    | none => "bad-op"
+  | ["catlog", u, r, ts, f] =>
+    match decList ts, decForest f with
+    | some ts, some F =>
+      match LogRec.redoLog F (u == "1") (r == "1") (F.length + 2) ts ⟨[], []⟩ with
+      | .ok st => ",".intercalate (st.out.reverse.map showOut)
+      | .error e => "err:" ++ (match e with
+          | .outOfFuel => "fuel" | .unknownTarget => "unknown" | .badDone => "baddone" | .emptyText => "empty")
     | _, _ => "bad-op"
   | _ => "bad-op"
 
